@@ -352,8 +352,41 @@ fn emit(out: &mut Out, bytes: &[u8], cuts: &str, peer: &str, port: u16, expect: 
     out.case(&fr, &r, nontrivial);
 }
 
+/// The tokio twin of the parser, through the second harness binary `hvt` (humphrey built with `--features tokio`).
+fn tokio_exe() -> Option<std::path::PathBuf> {
+    let me = std::env::current_exe().ok()?;
+    let verif = me.parent()?.parent()?.parent()?.parent()?;
+    let p = verif.join("harness-tokio").join("target").join("release").join("hvt");
+    if p.exists() { Some(p) } else { None }
+}
+
+/// `req_parse_tokio` cases: the same inputs through tokio's `Request::from_stream`.
+fn tokio_cases(out: &mut Out, inputs: &[Vec<String>]) {
+    let exe = match tokio_exe() {
+        Some(e) => e,
+        None => { out.extra.insert("tokio".into(), "hvt not built: tokio parser not exercised".into()); return; }
+    };
+    let dir = std::env::temp_dir().join(format!("hv_c02_{}", std::process::id()));
+    let _ = std::fs::create_dir_all(&dir);
+    let inp = dir.join("in");
+    let outp = dir.join("out");
+    std::fs::write(&inp, inputs.iter().map(|f| f.join("\t")).collect::<Vec<_>>().join("\n") + "\n").unwrap();
+    let ok = std::process::Command::new(exe).arg("__c02").arg(&inp).arg(&outp).status().map(|s| s.success()).unwrap_or(false);
+    let res = std::fs::read_to_string(&outp).unwrap_or_default();
+    let _ = std::fs::remove_dir_all(&dir);
+    if !ok { out.extra.insert("tokio".into(), "hvt __c02 failed".into()); return; }
+    for (f, r) in inputs.iter().zip(res.lines()) {
+        let mut g = f.clone();
+        g[0] = "req_parse_tokio".into();
+        out.count(&format!("tokio:{}", if r.starts_with("OK") { "parsed" } else if r.starts_with("PANIC") { "panic" } else { "error" }));
+        let fr: Vec<&str> = g.iter().map(|s| s.as_str()).collect();
+        out.case(&fr, r, true);
+    }
+}
+
 pub fn gen(out: &mut Out, thorough: bool, seed: u64) {
     let mut rng = Rng::new(seed ^ 0xC02);
+    let mut tokio_inputs: Vec<Vec<String>> = Vec::new();
     let n = if thorough { 100_000 } else { 4_000 };
     let peers = [("127.0.0.1", 5000u16), ("192.168.1.7", 41234), ("::1", 80)];
     for i in 0..n {
@@ -367,6 +400,11 @@ pub fn gen(out: &mut Out, thorough: bool, seed: u64) {
         if g.body.is_some() { out.count("with-body"); }
         let nontrivial = nh >= 2;
         emit(out, &r.bytes, "w", peer, port, &r.expect, nontrivial);
+        if i % 2 == 0 && r.bytes.len() <= 4096 {
+            for cuts in ["w".to_string(), "1".to_string(), random_cuts(&mut rng, r.bytes.len())] {
+                tokio_inputs.push(vec!["req_parse".into(), hex(&r.bytes), cuts, format!("{}|{}", peer, port), ip_oracle(&r.bytes), r.expect.clone()]);
+            }
+        }
         if r.bytes.len() <= 2048 {
             emit(out, &r.bytes, "1", peer, port, &r.expect, nontrivial);
         }
@@ -407,6 +445,8 @@ pub fn gen(out: &mut Out, thorough: bool, seed: u64) {
     for c in corner {
         for cuts in ["w", "1", "k3"] {
             emit(out, c, cuts, "127.0.0.1", 5000, "-", true);
+            tokio_inputs.push(vec!["req_parse".into(), hex(c), cuts.into(), "127.0.0.1|5000".into(), ip_oracle(c), "-".into()]);
         }
     }
+    tokio_cases(out, &tokio_inputs);
 }
